@@ -219,6 +219,13 @@ namespace Clipper2Lib {
     CheckPrecisionRange(precision, error_code);
     if (error_code) return PathsD();
     const double scale = std::pow(10, precision);
+    if ((rect.left * scale) < min_coord || (rect.right * scale) > max_coord ||
+      (rect.top * scale) < min_coord || (rect.bottom * scale) > max_coord)
+    {
+      error_code |= range_error_i;
+      DoError(range_error_i);
+      return PathsD();
+    }
     Rect64 r = ScaleRect<int64_t, double>(rect, scale);
     RectClip64 rc(r);
     Paths64 pp = ScalePaths<int64_t, double>(paths, scale, error_code);
@@ -251,6 +258,13 @@ namespace Clipper2Lib {
     CheckPrecisionRange(precision, error_code);
     if (error_code) return PathsD();
     const double scale = std::pow(10, precision);
+    if ((rect.left * scale) < min_coord || (rect.right * scale) > max_coord ||
+      (rect.top * scale) < min_coord || (rect.bottom * scale) > max_coord)
+    {
+      error_code |= range_error_i;
+      DoError(range_error_i);
+      return PathsD();
+    }
     Rect64 r = ScaleRect<int64_t, double>(rect, scale);
     RectClipLines64 rcl(r);
     Paths64 p = ScalePaths<int64_t, double>(lines, scale, error_code);
